@@ -94,7 +94,7 @@ CHECKS = {
         note="Trusted: interpreter, z3, the stubs. Statistical quality of the OS RNG is outside the technique; distinctness follows from the RNG assumption."),
     "C04": dict(
         text="A valid blob is produced symbolically by protect (symbolic plaintext, root key, CEK, nonces, ciphertext; both layouts) and then altered: one byte replaced by a "
-             "symbolic value at structural positions (thorough: every position), truncation, deletion and insertion of a symbolic byte, two-site substitutions; a re-keyed forgery (position, key_info, wrapped CEK, nonce and content replaced using only public key material); content_decrypt on a message of symbolic length (up to 2^18, thorough 2^21) that is truncated / stripped / cut / extended at solver-chosen points; unprotect is "
+             "symbolic value at structural positions (thorough: every position), truncation, deletion and insertion of a symbolic byte, two-site substitutions; a re-keyed forgery (position, key_info, wrapped CEK, nonce and content replaced using only public key material); a forgery into public-key mode with a DH public key in a group of the forger's own or with degenerate / ordinary values in the root key's group (modular exponentiation obeys its exponent-independent laws); content_decrypt on a message of symbolic length (up to 2^18, thorough 2^21) that is truncated / stripped / cut / extended at solver-chosen points; unprotect is "
              "executed on every path and z3 proves that whenever it returns, the bytes equal the original plaintext symbols.",
         note="Trusted: interpreter, z3, the ideal AEAD / key-wrap / KDF contracts (so the claim is: every byte that can influence the result reaches the authenticated "
              "primitives unchanged; GCM/AES-KW strength is outside). Structure-shifting alterations run on a blob whose opaque contents are fixed pseudo-random octets (see "
